@@ -50,6 +50,23 @@ CLAIMED = {
          'PDU; the real DIMSEDecoder is run on all 2^(n-1) compositions of real fragment lists (n<=8 quick), in '
          'memory and file-backed, and diffed with the model; the dispatch table is regenerated and proved exact.',
          'Trusted: Lean kernel; harness oracle; pydicom for command-set decode and file readability (parameters).'),
+ 'C08': ('DESIGN.md §6 C08',
+         'Lean 4 theorems on the command-set model (any insertion order, any op history) + strict-reader oracle',
+         'group_length_exact, ascending_tags, strict_reader_reads, dataset_flag_iff and resend_group_length are proved '
+         'for every command set with one element per tag and every history of field changes, data-set changes and sends; '
+         'the message-class table is regenerated and proved equal to the PS3.7 command fields; real message objects are '
+         'driven through the same histories via the real Association.send, every transmitted command set is read by '
+         'the strict Lean reader and compared byte for byte with the model.',
+         'Trusted: Lean kernel; pydicom value encoding and ascending-tag writing (inputs, diffed on every case); the '
+         'strict reader in Dicom/Spec/CmdSetGrammar.lean.'),
+ 'C10': ('DESIGN.md §6 C10',
+         'Lean 4 theorems on the limit functions composed with the fragmentation theorems + negotiation harness',
+         'acceptor/requester_never_exceeds_peer, zero_is_unlimited, can_always_send, announces_within_own and '
+         'both_directions hold for every pair of usable values (0 or >= 7) and every message; the limit functions are '
+         'diffed against the real accept()/_request() on wire-decoded PDUs over the boundary grid squared, both roles, '
+         'and the real Association.send is checked against the announced values for messages below, at and above the '
+         'fragment size, as bytes and as files.',
+         'Trusted: Lean kernel; harness stubs for the provider queue. Maximum lengths 1..6 are outside the property.'),
 }
 
 PENDING_REASON = 'check not built yet in this round; planned in DESIGN.md §6 (Lean model + theorem + tie)'
